@@ -101,7 +101,8 @@ impl Property for C16 {
          destination(a, bearing(a,b), d(a,b)) arrives at b and point_at_ratio_between splits d in r : 1-r within 1 mm + 1e-9 d on the \
          well-conditioned sub-domain (|lat| <= 89, central angle in [1e-7, 179] deg; for Rhumb additionally dlat = 0 or |dpsi| >= \
          1e-6), length = sum of segment distances, destination periodic in the bearing and odd in the distance, Haversine linear in \
-         the radius, Geodesic on a sphere = Haversine, deprecated trait forms identical. Non-trivial = the pair crosses the \
+         the radius, Geodesic on a sphere = Haversine, deprecated trait forms identical; over the WHOLE domain (poles included) \
+         destination and ratio points are finite. Non-trivial = the pair crosses the \
          antimeridian, or |lat| > 60, or lies in different hemispheres."
             .into()
     }
